@@ -165,6 +165,7 @@ def run(ctx):
     ctx.log("counter-loop cases: %d" % len(scases))
     # ---------------------------------------------------------------- (b)+(c) validation
     ntr = [0]
+    undecided = []
     from concurrent.futures import ThreadPoolExecutor
 
     def validate(ci_items):
@@ -200,14 +201,22 @@ def run(ctx):
             t = dict(mark=t["mark"], jump1=t["jump1"], jump2=t["jump2"], rows=[x for x in o["rows"] if isinstance(x, list)])
             lines.append(json.dumps(t, separators=(",", ":")))
         cfg = cfg_text(c, CAPS1, spec="TraceSpec", invs=("NotAllAccepted",), props=())
-        res = ctx.tlc("jumploop", "JumpLoopTrace", "trace.cfg", files={"trace.cfg": cfg, "traces.ndjson": "\n".join(lines) + "\n"},
-                      workers=1, dfs=True, timeout=2400, expect_violation=True, count=False, label="traces " + shape(c))
+        # the depth-first search accepts a trace quickly, but a few traces of the larger configurations send it
+        # into a silent state space of 10^8 states: every job has a budget, a chunk that exhausts it is retried
+        # trace by trace, and a trace that exhausts its own budget is counted as undecided (never as rejected)
+        try:
+            res = ctx.tlc("jumploop", "JumpLoopTrace", "trace.cfg", files={"trace.cfg": cfg, "traces.ndjson": "\n".join(lines) + "\n"},
+                          workers=1, dfs=True, timeout=900, expect_violation=True, count=False, label="traces " + shape(c))
+        except Inconclusive as e:
+            if "timeout" not in str(e):
+                raise
+            res = None
         exp = None
-        if res.msgs.get("expected"):
+        if res is not None and res.msgs.get("expected"):
             exp = Counter()
             for x in res.msgs["expected"][0]:
                 exp[(x[0], x[1])] += x[2]
-        if res.violation == "NotAllAccepted":
+        if res is not None and res.violation == "NotAllAccepted":
             ntr[0] += len(vitems)
             return exp
         # some trace was rejected: find which ones
@@ -216,8 +225,18 @@ def run(ctx):
             for k in ("mark", "jump1", "jump2"):
                 t.setdefault(k, [])
             one = json.dumps(dict(mark=t["mark"], jump1=t["jump1"], jump2=t["jump2"], rows=[x for x in o["rows"] if isinstance(x, list)]))
-            r1 = ctx.tlc("jumploop", "JumpLoopTrace", "trace.cfg", files={"trace.cfg": cfg, "traces.ndjson": one + "\n"},
-                         workers=1, dfs=True, timeout=900, expect_violation=True, count=False, label="single trace " + shape(c))
+            try:
+                r1 = ctx.tlc("jumploop", "JumpLoopTrace", "trace.cfg", files={"trace.cfg": cfg, "traces.ndjson": one + "\n"},
+                             workers=1, dfs=True, timeout=600, expect_violation=True, count=False, label="single trace " + shape(c))
+            except Inconclusive as e:
+                if "timeout" not in str(e):
+                    raise
+                undecided.append(shape(c))
+                continue
+            if exp is None and r1.msgs.get("expected"):
+                exp = Counter()
+                for x in r1.msgs["expected"][0]:
+                    exp[(x[0], x[1])] += x[2]
             if r1.violation == "NotAllAccepted":
                 ntr[0] += 1
             else:
@@ -229,6 +248,11 @@ def run(ctx):
     with ThreadPoolExecutor(max_workers=4) as ex:
         list(ex.map(validate, sorted(by_cfg.items())))
     ntr = ntr[0]
+    if undecided:
+        ctx.notes.append("%d trace(s) undecided within the search budget (configurations: %s); their rows were still compared" % (len(undecided), ", ".join(sorted(set(undecided)))))
+        ctx.cov["traces_undecided"] = len(undecided)
+        if len(undecided) > max(3, ntr // 4):
+            raise Inconclusive("%d of %d traces could not be decided within the search budget" % (len(undecided), ntr + len(undecided)))
     for r in reqs[:: max(1, len(reqs) // 4)]:
         ctx.sample(dict(config=configs[r["cfg"]], procs=r["procs"], jitter=r["jitter"], events=sum(len(v) for v in (outs[r["i"]].get("trace") or {}).values()) if isinstance(outs[r["i"]].get("trace"), dict) else None))
     ctx.cov.update(evaluations=len(reqs), distinct_nontrivial=len(configs) * len(procs) * 2, traces_validated_against_impl=ntr,
